@@ -306,6 +306,8 @@ class Engine:
         call = self.contract_attr(cls, 'call')
         hints = self.contract_attr(cls, 'hints')
         max_paths = self.contract_attr(cls, 'max_paths', 400)
+        loops = self.contract_attr(cls, 'loops')
+        I.loop_specs = dict(I.dict_items(loops)) if loops is not None else {}
         tgt = None
         if target:
             tgt = I.get(target)
@@ -337,6 +339,8 @@ class Engine:
                             raise Infeasible()
                 ctx.pre_len = len(ctx.pc)
                 ctx.events_before = len(ctx.events)
+                # universally quantified clause variables are fixed arbitrary constants for the whole path (loop invariants may use them)
+                ctx.skolems = {nm: sb._leaf(f'forall.{nm}', {'int': 'int', 'real': 'real', 'bool': 'bool', 'index': 'int'}[kd]) for nm, kd in forall.items()}
                 try:
                     if call is not None:
                         res = I.call(call, [], self.select_args(call, args))
@@ -367,6 +371,10 @@ class Engine:
                 n += 1
                 if out[0] == 'unsupported':
                     obls.append(self.undecided(prop, cname, case, 'subset', n, out[1]))
+                    continue
+                if out[0] == 'partial':
+                    # the 'preserve' path of a loop contract: only the obligations raised on the way
+                    obls.extend(self.side_obligations(prop, cname, case, n, ctx))
                     continue
                 obls.extend(self.path_obligations(prop, cname, case, n, ctx, out, post, raises, may_raise, forall, modifies))
             if n == 0:
@@ -447,10 +455,14 @@ class Engine:
         facts = []
         for c2, out in results:
             if out[0] == 'infeasible':
+                facts.extend(c2.facts[len(base_facts):])      # definitional facts first stated on this sub-path still hold
                 continue
             if out[0] == 'unsupported':
                 raise Unsupported('in clause: ' + out[1])
             extra = c2.pc[len(base_pc):]
+            # facts are definitional (fresh-symbol definitions, identities, axioms of abstract functions): they hold whatever
+            # decisions the sub-path took; model code must not state a fact whose content depends on a decision
+            # (the hypothesis-consistency check of every contract case guards against a violation of that rule)
             facts.extend(c2.facts[len(base_facts):])
             for (ln, lc, lpc, lfacts) in c2.lemmas:
                 self.pending_lemmas.append((ln, lc, list(N.GLOBAL_FACTS) + lfacts + lpc))
@@ -556,9 +568,22 @@ class Engine:
         if not seen:
             add('frame', z3.BoolVal(True), kind='frame')
         # side obligations raised by external models (numpy bounds ...)
-        for i, (sname, cond, pcs) in enumerate(ctx.side):
+        for i, ent in enumerate(ctx.side):
+            sname, cond, pcs = ent[:3]
+            fcts = ent[3] if len(ent) > 3 else ctx.facts      # a lemma is proved from the facts known when it was stated
             soft = sname.startswith('soft:')
-            add(f'side.{sname[5:] if soft else sname}#{i}', cond, kind='soft' if soft else 'side', hy=list(N.GLOBAL_FACTS) + list(ctx.facts) + list(pcs))
+            add(f'side.{sname[5:] if soft else sname}#{i}', cond, kind='soft' if soft else 'side', hy=list(N.GLOBAL_FACTS) + list(fcts) + list(pcs))
+        return obls
+
+    def side_obligations(self, prop, cname, case, n, ctx):
+        obls = []
+        meta = {'leaves': {k: v[0] for k, v in ctx.sb.leaves.items()}, 'ctx': ctx}
+        for i, ent in enumerate(ctx.side):
+            sname, cond, pcs = ent[:3]
+            fcts = ent[3] if len(ent) > 3 else ctx.facts
+            soft = sname.startswith('soft:')
+            obls.append(Obligation(prop, cname, case, f'side.{sname[5:] if soft else sname}#{i}', n,
+                                   list(N.GLOBAL_FACTS) + list(fcts) + list(pcs), cond, kind='soft' if soft else 'side', meta=dict(meta)))
         return obls
 
     def case_names(self, entry):
@@ -678,6 +703,29 @@ def _solve(job):
                 reason = s.reason_unknown()
             except Exception:
                 pass
+        # counterexample-guided trigonometry: a candidate model that gives cos/sin of 0, pi/2, pi or of two opposite angles
+        # values the real functions do not have is refuted by adding exactly those (true) instances, then solving again
+        rounds = 0
+        while r == z3.sat and rounds < 4:
+            extra = _trig_refinements(s.model(), asserts, ctx)
+            if not extra:
+                break
+            rounds += 1
+            asserts = list(asserts) + extra
+            s = z3.Solver(ctx=ctx)
+            s.set('timeout', timeout_ms)
+            s.set('random_seed', seed)
+            s.add(*asserts)
+            try:
+                r = s.check()
+            except z3.Z3Exception as e:
+                r, reason = z3.unknown, str(e)
+            backend = 'z3+trig-instances'
+            if r == z3.unknown:
+                try:
+                    reason = s.reason_unknown()
+                except Exception:
+                    pass
         status = str(r)
         model = None
         if r == z3.sat:
@@ -723,6 +771,63 @@ def _solve(job):
         return idx, status, time.time() - t0, model, backend, reason
     except Exception as e:      # noqa
         return idx, 'error', time.time() - t0, None, 'z3', f'{type(e).__name__}: {e}'
+
+
+def _trig_refinements(m, asserts, ctx):
+    """true instances of trigonometric facts that the model m violates (empty list: m is consistent with them)"""
+    terms = {}
+    cosd = sind = pi = None
+    seen = set()
+    stack = list(asserts)
+    while stack:
+        e = stack.pop()
+        if e.get_id() in seen:
+            continue
+        seen.add(e.get_id())
+        if z3.is_app(e):
+            nm = e.decl().name()
+            if e.num_args() == 1 and nm in ('cosf', 'sinf'):
+                terms[e.arg(0).get_id()] = e.arg(0)
+                if nm == 'cosf':
+                    cosd = e.decl()
+                else:
+                    sind = e.decl()
+            elif e.num_args() == 0 and nm == 'pi' and e.sort().kind() == z3.Z3_REAL_SORT:
+                pi = e
+            stack.extend(e.children())
+        elif z3.is_quantifier(e):
+            stack.append(e.body())
+    if not terms:
+        return []
+    if cosd is None:
+        cosd = z3.Function('cosf', z3.RealSort(ctx), z3.RealSort(ctx))
+    if sind is None:
+        sind = z3.Function('sinf', z3.RealSort(ctx), z3.RealSort(ctx))
+    out = []
+
+    def is_zero(t):
+        v = m.eval(t, model_completion=True)
+        return z3.is_rational_value(v) and v.numerator_as_long() == 0
+
+    def differs(a, b):
+        return not z3.is_true(z3.simplify(m.eval(a == b, model_completion=True)))
+    ts = list(terms.values())
+    one, zero = z3.RealVal(1, ctx), z3.RealVal(0, ctx)
+    for t in ts:
+        if z3.is_rational_value(t):
+            continue
+        specials = [(t, one, zero)]
+        if pi is not None:
+            specials += [(t - pi / 2, zero, one), (t - pi, -one, zero), (t + pi / 2, zero, -one), (t + pi, -one, zero)]
+        for (d, c, sn) in specials:
+            if is_zero(d) and (differs(cosd(t), c) or differs(sind(t), sn)):
+                out.append(z3.Implies(d == 0, z3.And(cosd(t) == c, sind(t) == sn)))
+    for i in range(len(ts)):
+        for j in range(i + 1, len(ts)):
+            a, b = ts[i], ts[j]
+            if is_zero(a + b) and (differs(cosd(a), cosd(b)) or differs(sind(a), -sind(b))):
+                out.append(z3.Implies(a + b == 0, z3.And(cosd(a) == cosd(b), sind(a) == -sind(b))))
+    return out[:12]
 
 
 def _holds_in(m, a):
